@@ -271,6 +271,9 @@ def _cfg_manager(tier):
         for w in ws:
             for pre in ("fresh", "arbitrary"):
                 if cls == "BalancedIncrementalQuantileFilter":
+                    if pre == "fresh" and w == ws[0]:
+                        for wq in (1, 2):      # windows smaller than the stream: eviction inside a chunk
+                            out.append(dict(cls=cls, w=wq, n=3, pre=pre, budget=0.5))
                     for b in ((0.1, 0.5, 1.0) if tier == "thorough" else (0.5,)):
                         for n in ((2, 3) if tier == "quick" else (2, 3, 4)):
                             if pre == "arbitrary" and n > 2:
@@ -301,6 +304,9 @@ HARNESSES = [
             ["skactiveml.stream._stream_baselines:PeriodicSampling", "skactiveml.stream._stream_baselines:StreamRandomSampling"],
             required_witnesses=("some_granted",)),
 ]
+
+from harness import density as _density  # noqa: E402
+HARNESSES = HARNESSES + _density.harnesses_c10()
 
 BOUNDS = dict(quick="streams of <= 3 instances, ALL compositions into chunks, w=3, symbolic budget (BIQF: budget 0.5, "
                     "window history <= 2), symbolic and fresh pre-states",
